@@ -132,7 +132,7 @@ def r11_6(chk, P, E):
 
 def r11_2(chk, P, E):
     chk.rule('R11.2', 'vorbis_synthesis_blockin writes only the lapping/position state (vorbis_dsp_state.{pcm[][], lW, W, nW, '
-             'centerW, pcm_current, pcm_returned, granulepos, sequence, eofflag, *_bits} and private_state.sample_count); '
+             'centerW, pcm_current, pcm_returned, granulepos, sequence, eofflag, *_bits} and private_state.{sample_count, lapped}); '
              'vorbis_synthesis_restart only the position/sequence fields and sample_count')
     for fn, allowed in (('vorbis_synthesis_blockin', ALLOWED_BLOCKIN), ('vorbis_synthesis_restart', ALLOWED_RESTART)):
         F = P.need(fn)
@@ -145,6 +145,8 @@ def r11_2(chk, P, E):
                 continue
             if r == 'private_state' and f == 'sample_count':
                 continue
+            if r == 'private_state' and f == 'lapped' and fn == 'vorbis_synthesis_blockin':
+                continue          # "the gap in front of this block has been closed" (lapping state, reset per block)
             if o[0] == 'F' and o[1] == 'vorbis_dsp_state' and o[2] == 'pcm' and r is None and fn == 'vorbis_synthesis_blockin':
                 continue
             bad.append((o, r, f))
